@@ -549,6 +549,7 @@ func TestCheck(t *testing.T) {
 	defer r.Finish()
 	r.SetRule("structure-aware hostile inputs: random bytes, record-level edge cases (zero/one-byte records, header then EOF, over-long lengths), byte-level and structural mutations of valid ECH offers and plain hellos " +
 		"(duplicate/empty/oversized extensions incl. several ECH extensions of both types, truncated vectors, trailing bytes), AUTHENTIC payloads whose decrypted inner is hostile (sealed by the independent sender), " +
+		"fragmented first flights (legal cuts, header split with a huge announced length, foreign records or empty fragments inside the message), accepted offer + HelloRetryRequest + hostile second hello, authentic payloads built for amplification (thousands of ech_outer_extensions markers on one large outer extension), " +
 		"each followed by hostile record streams on the client side and through Write on the backend side; with no keys, one key, two keys. Oracle: recovered panics, progress counters from the tap, buffered-bytes bound (2 records), " +
 		"per-call allocation counter (runtime.MemStats.TotalAlloc deltas, single-threaded sub-workload). The stall stage runs NewConn under testing/synctest with the client stalling at every byte offset. " +
 		"distinct = distinct (class, outcome of NewConn, accepted, first error class) combinations … plus every distinct input hash")
